@@ -45,8 +45,18 @@ def rule_ode(ctx):
     fi = pkg.func("devices.FBG.<locals>.ode_system")
     # "any apodisation (built-in or user callable)": whether a profile was given is a question of identity (`is not None`), not of
     # truthiness - a callable OBJECT may be falsy (np.poly1d([0.5]) has length 0) and would be ignored: the grating computed as uniform
-    tests = [n.test for n in ast.walk(pkg.func("devices.FBG").node) if isinstance(n, (ast.If, ast.IfExp))]
-    falsy = [t for t in tests if (isinstance(t, ast.Name) and t.id == "apo_func") or (isinstance(t, ast.UnaryOp) and isinstance(t.op, ast.Not) and isinstance(t.operand, ast.Name) and t.operand.id == "apo_func")]
+    # every place where the profile's TRUTH VALUE is taken: a test that is the bare name (or `not name`), an operand of and / or
+    # wherever it stands (`apo_func or np.ones_like` picks the default for a falsy callable too), bool(name)
+    def is_name(x):
+        return isinstance(x, ast.Name) and x.id == "apo_func"
+    falsy = []
+    for n in ast.walk(pkg.func("devices.FBG").node):
+        if isinstance(n, (ast.If, ast.IfExp, ast.While)) and (is_name(n.test) or (isinstance(n.test, ast.UnaryOp) and isinstance(n.test.op, ast.Not) and is_name(n.test.operand))):
+            falsy.append(n.test)
+        elif isinstance(n, ast.BoolOp) and any(is_name(v) or (isinstance(v, ast.UnaryOp) and isinstance(v.op, ast.Not) and is_name(v.operand)) for v in n.values):
+            falsy.append(n)
+        elif isinstance(n, ast.Call) and isinstance(n.func, ast.Name) and n.func.id == "bool" and n.args and is_name(n.args[0]):
+            falsy.append(n)
     ctx.check("C16.1", not falsy, fi, falsy[0] if falsy else fi.node, "ode_system: profile present <=> `apo_func is not None`", "decided by identity",
               "the apodisation profile is tested for truthiness: a user callable that is falsy (an object with __len__() == 0, e.g. a constant np.poly1d) is ignored and the reflectivity is that of the uniform grating")
     for apo in (False, True):
